@@ -2,6 +2,7 @@ package checks
 
 import (
 	"fmt"
+	"github.com/sdcio/data-server/pkg/config"
 	"strings"
 	"sync"
 	"time"
@@ -144,7 +145,18 @@ func (c *probeCheck) RunCase(w *core.Worker, idx int, seed uint64, res *core.Cas
 		poolName += " bulk"
 		res.Count("bulk_cases", 1)
 	}
+	// C05, every 6th case: a datastore whose operator switched the pattern and the length validator off, holding values that
+	// are acceptable only because of that (a rollback that validates with other settings than the transaction did cannot
+	// restore anything)
+	c.h.validation = nil
+	laxValidators := c.id == "C05" && idx%6 == 5
+	if laxValidators {
+		c.h.validation = &config.Validation{DisabledValidators: config.Validators{Pattern: true, Length: true}}
+		poolName += " validators(pattern,length)=off"
+		res.Count("cases_with_disabled_validators", 1)
+	}
 	run := c.h.start(rng, res, true, c.id == "C09")
+	c.h.validation = nil
 	run.ds.Dev.CaptureViews = false
 	defer run.close()
 	if c.h.gnmiWire != "" {
@@ -154,6 +166,11 @@ func (c *probeCheck) RunCase(w *core.Worker, idx int, seed uint64, res *core.Cas
 		res.Count("gnmi_wire_cases:"+c.h.gnmiWire, 1)
 	}
 	res.Tracef("pool=%s", poolName)
+	if laxValidators {
+		if _, ok := run.commit([]stepIntent{{Owner: "lax", Prio: 80, Vals: map[string]string{"/cons/pat": "xyz", "/cons/len": "toolong"}, Kind: "create"}}); !ok {
+			return
+		}
+	}
 	if c.id == "C03" {
 		// two intents the generator never touches: m2's leaf is valid only while m1 says a=on; a transaction that
 		// changes m1 alone sees m2's leaf only through the running config (validation error attributed to "running")
